@@ -191,4 +191,406 @@ theorem inotify_accept {R} {inv inv' : Invoice} {ctx : Ctx} {k : AcceptKind}
                     obtain ⟨_, _, _, _, _, _, _, _, _, hcase⟩ := updateMpp_add hu
                     rcases hcase with ⟨hx, _⟩ | ⟨hx, _⟩ | ⟨_, hx, _⟩ <;> cases hx
 
+/-! ### the indices: hashes and (non-blank) payment addresses identify invoices -/
+
+def ikey (i : Invoice) : Nat × Nat := (i.hash, i.payAddr)
+def akey (a : AmpInv) : Nat × Nat := (a.hash, a.payAddr)
+
+theorem mem_keys {reg : Reg} {x : Nat × Nat} :
+    x ∈ reg.keys ↔ (∃ i ∈ reg.invs, x = ikey i) ∨ (∃ a ∈ reg.amps, x = akey a) := by
+  unfold Reg.keys ikey akey
+  simp only [List.mem_append, List.mem_map]
+  constructor
+  · rintro (⟨i, hi, rfl⟩ | ⟨a, ha, rfl⟩)
+    · exact Or.inl ⟨i, hi, rfl⟩
+    · exact Or.inr ⟨a, ha, rfl⟩
+  · rintro (⟨i, hi, rfl⟩ | ⟨a, ha, rfl⟩)
+    · exact Or.inl ⟨i, hi, rfl⟩
+    · exact Or.inr ⟨a, ha, rfl⟩
+
+/-- the hash index and the payment-address index are injective. -/
+structure KeysOk (reg : Reg) : Prop where
+  hashes : ∀ x ∈ reg.keys, ∀ y ∈ reg.keys, x.1 = y.1 → x = y
+  addrs : ∀ x ∈ reg.keys, ∀ y ∈ reg.keys, x.2 = y.2 → x.2 ≠ 0 → x = y
+
+theorem KeysOk.of_same {reg reg' : Reg} (hk : KeysOk reg) (h : ∀ x, x ∈ reg'.keys ↔ x ∈ reg.keys) :
+    KeysOk reg' :=
+  ⟨fun x hx y hy => hk.hashes x ((h x).mp hx) y ((h y).mp hy),
+   fun x hx y hy => hk.addrs x ((h x).mp hx) y ((h y).mp hy)⟩
+
+theorem kAddr_none {ks : List (Nat × Nat)} {a : Nat} (hf : kAddr ks a = none) (ha : a ≠ 0) :
+    ∀ k ∈ ks, k.2 ≠ a := by
+  intro k hk he
+  unfold kAddr at hf
+  rw [if_neg ha, List.find?_eq_none] at hf
+  have := hf k hk
+  simp [he] at this
+
+theorem addInvoice_keys {reg reg' : Reg} {s : InvSpec} (ha : addInvoice reg s = some reg') :
+    kHash reg.keys s.hash = none ∧ kAddr reg.keys s.payAddr = none ∧
+    ∀ x, x ∈ reg'.keys ↔ x ∈ reg.keys ∨ x = (s.hash, s.payAddr) := by
+  unfold addInvoice at ha
+  by_cases c1 : (kHash reg.keys s.hash).isSome = true
+  · simp [c1] at ha
+  rw [if_neg c1] at ha
+  by_cases c2 : (kAddr reg.keys s.payAddr).isSome = true
+  · simp [c2] at ha
+  rw [if_neg c2] at ha
+  have h1 : kHash reg.keys s.hash = none := by
+    cases hf : kHash reg.keys s.hash with
+    | none => rfl
+    | some _ => simp [hf] at c1
+  have h2 : kAddr reg.keys s.payAddr = none := by
+    cases hf : kAddr reg.keys s.payAddr with
+    | none => rfl
+    | some _ => simp [hf] at c2
+  refine ⟨h1, h2, ?_⟩
+  by_cases c3 : s.ampReq = true
+  · rw [if_pos c3] at ha; cases ha
+    intro x
+    unfold Reg.keys
+    simp [InvSpec.toAmp, or_assoc]
+  · rw [if_neg c3] at ha; cases ha
+    intro x
+    rw [mem_keys, mem_keys]
+    constructor
+    · rintro (⟨i, hi, rfl⟩ | h)
+      · rcases List.mem_append.mp hi with hi | hi
+        · exact Or.inl (Or.inl ⟨i, hi, rfl⟩)
+        · simp at hi; subst hi; exact Or.inr rfl
+      · exact Or.inl (Or.inr h)
+    · rintro ((⟨i, hi, rfl⟩ | h) | rfl)
+      · exact Or.inl ⟨i, List.mem_append.mpr (Or.inl hi), rfl⟩
+      · exact Or.inr h
+      · exact Or.inl ⟨s.toInvoice, by simp, rfl⟩
+
+theorem addInvoice_keysOk {reg reg' : Reg} {s : InvSpec} (hk : KeysOk reg)
+    (ha : addInvoice reg s = some reg') : KeysOk reg' := by
+  obtain ⟨h1, h2, hm⟩ := addInvoice_keys ha
+  have f1 := kHash_none h1
+  refine ⟨?_, ?_⟩
+  · intro x hx y hy he
+    rcases (hm x).mp hx with hx | rfl <;> rcases (hm y).mp hy with hy | rfl
+    · exact hk.hashes x hx y hy he
+    · exact absurd he (f1 x hx)
+    · exact absurd he.symm (f1 y hy)
+    · rfl
+  · intro x hx y hy he hne
+    rcases (hm x).mp hx with hx | rfl <;> rcases (hm y).mp hy with hy | rfl
+    · exact hk.addrs x hx y hy he hne
+    · have hs : s.payAddr ≠ 0 := by simp at he; rw [← he]; exact hne
+      exact absurd he (kAddr_none h2 hs x hx)
+    · have hs : s.payAddr ≠ 0 := by simpa using hne
+      exact absurd he.symm (kAddr_none h2 hs y hy)
+    · rfl
+
+theorem setInv_keys {R} {reg : Reg} (hg : RegGood H R reg) {inv inv' : Invoice} (hm : inv ∈ reg.invs)
+    (hh : inv.hash = inv'.hash) (ha : inv.payAddr = inv'.payAddr) (subs : List Nat) :
+    ∀ x, x ∈ ({ reg with invs := setInv reg.invs inv', subs := subs } : Reg).keys ↔ x ∈ reg.keys := by
+  intro x
+  rw [mem_keys, mem_keys]
+  have hk : ikey inv' = ikey inv := by unfold ikey; rw [hh, ha]
+  constructor
+  · rintro (⟨i, hi, rfl⟩ | h)
+    · rcases mem_setInv hi with rfl | hi
+      · exact Or.inl ⟨inv, hm, hk⟩
+      · exact Or.inl ⟨i, hi, rfl⟩
+    · exact Or.inr h
+  · rintro (⟨i, hi, rfl⟩ | h)
+    · by_cases c : i.hash = inv'.hash
+      · have : i = inv := hash_inj hg.nodup hi hm (c.trans hh.symm)
+        subst this
+        exact Or.inl ⟨inv', setInv_self hm hh, hk.symm⟩
+      · refine Or.inl ⟨i, ?_, rfl⟩
+        unfold setInv
+        exact List.mem_map.mpr ⟨i, hi, by simp [c]⟩
+    · exact Or.inr h
+
+theorem setAmp_keys {R} {reg : Reg} (hg : RegGood H R reg) {a a' : AmpInv} (hm : a ∈ reg.amps)
+    (hh : a.hash = a'.hash) (ha : a.payAddr = a'.payAddr) (subs : List Nat) :
+    ∀ x, x ∈ ({ reg with amps := setAmp reg.amps a', subs := subs } : Reg).keys ↔ x ∈ reg.keys := by
+  intro x
+  rw [mem_keys, mem_keys]
+  have hk : akey a' = akey a := by unfold akey; rw [hh, ha]
+  constructor
+  · rintro (h | ⟨i, hi, rfl⟩)
+    · exact Or.inl h
+    · rcases mem_setAmp hi with rfl | hi
+      · exact Or.inr ⟨a, hm, hk⟩
+      · exact Or.inr ⟨i, hi, rfl⟩
+  · rintro (h | ⟨i, hi, rfl⟩)
+    · exact Or.inl h
+    · by_cases c : i.hash = a'.hash
+      · have : i = a := ahash_inj hg.anodup hi hm (c.trans hh.symm)
+        subst this
+        exact Or.inr ⟨a', setAmp_self hm hh, hk.symm⟩
+      · refine Or.inr ⟨i, ?_, rfl⟩
+        unfold setAmp
+        exact List.mem_map.mpr ⟨i, hi, by simp [c]⟩
+
+theorem preprocess_keysOk {cfg : Cfg} {reg reg' : Reg} {ctx : Ctx} (hk : KeysOk reg)
+    (hp : preprocess H cfg reg ctx = .ok reg') : KeysOk reg' := by
+  rcases preprocess_spec hp with rfl | ⟨s, ha⟩
+  · exact hk
+  · exact addInvoice_keysOk hk ha
+
+/-- every event keeps the two indices injective. -/
+theorem step_keysOk {R} {cfg : Cfg} {reg : Reg} {e : Event} (hg : RegGood H R reg) (hk : KeysOk reg) :
+    KeysOk (step H P cfg reg e).1 := by
+  cases e with
+  | addInvoice s =>
+    simp only [step]
+    cases ha : addInvoice reg s with
+    | none => exact hk
+    | some reg' => exact addInvoice_keysOk hk ha
+  | notify ctx0 =>
+    simp only [step]
+    generalize ({ ctx0 with now := reg.now, rejectDelta := cfg.rejectDelta } : Ctx) = ctx
+    unfold notify
+    cases hpre : preprocess H cfg reg ctx with
+    | error e => exact hk
+    | ok reg1 =>
+      have hg1 : RegGood H R reg1 := preprocess_good hg hpre
+      have hk1 := preprocess_keysOk hk hpre
+      simp only
+      cases hl : lookup cfg reg1.keys ctx.hash (refAddr ctx) (ctx.amp && ctx.pathID.isNone) with
+      | none => exact hk1
+      | some h =>
+        simp only
+        cases hf : findHash reg1.invs h with
+        | some inv =>
+          simp only
+          have ht := inotify_terms (H := H) (ctx := ctx) (inv := inv)
+          exact hk1.of_same (setInv_keys hg1 (findHash_some hf).1 ht.1 ht.2.2.1 _)
+        | none =>
+          simp only
+          cases hfa : findAmp reg1.amps h with
+          | none => exact hk1
+          | some a =>
+            simp only
+            split
+            · exact hk1
+            · have hm := anotify_mono (H := H) (P := P) (ctx := ctx) (a := a)
+              exact hk1.of_same (setAmp_keys hg1 (findAmp_some hfa).1 hm.1 hm.2.2.1 _)
+  | settle p =>
+    simp only [step]
+    unfold settleHodl
+    cases hf : findHash reg.invs (H p) with
+    | some inv =>
+      have ht := isettle_terms (H := H) (p := p) (inv := inv)
+      exact hk.of_same (setInv_keys hg (findHash_some hf).1 ht.1 ht.2.2.1 _)
+    | none =>
+      simp only
+      cases hfa : findAmp reg.amps (H p) <;> exact hk
+  | cancel h =>
+    simp only [step]
+    unfold cancel
+    cases hf : findHash reg.invs h with
+    | some inv =>
+      have ht := icancel_terms (inv := inv)
+      exact hk.of_same (setInv_keys hg (findHash_some hf).1 ht.1 ht.2.2.1 _)
+    | none =>
+      simp only
+      cases hfa : findAmp reg.amps h with
+      | none => exact hk
+      | some a =>
+        have hm := acancel_mono (a := a)
+        exact hk.of_same (setAmp_keys hg (findAmp_some hfa).1 hm.1 hm.2.2.1 _)
+  | tick dt =>
+    simp only [step]
+    unfold tick
+    simp only
+    refine hk.of_same ?_
+    intro x
+    rw [mem_keys, mem_keys]
+    constructor
+    · rintro (⟨i, hi, rfl⟩ | ⟨a, ha, rfl⟩)
+      · obtain ⟨j, hj, rfl⟩ := List.mem_map.mp hi
+        obtain ⟨k, hkm, rfl⟩ := List.mem_map.mp hj
+        have ht := itimeout_terms (hold := cfg.hold) (now := reg.now + dt) (inv := k)
+        exact Or.inl ⟨k, hkm, by unfold ikey; rw [ht.1, ht.2.2.1]⟩
+      · obtain ⟨j, hj, rfl⟩ := List.mem_map.mp ha
+        obtain ⟨k, hkm, rfl⟩ := List.mem_map.mp hj
+        have hm := atimeout_mono (hold := cfg.hold) (now := reg.now + dt) (a := k)
+        exact Or.inr ⟨k, hkm, by unfold akey; rw [hm.1, hm.2.2.1]⟩
+    · rintro (⟨i, hi, rfl⟩ | ⟨a, ha, rfl⟩)
+      · have ht := itimeout_terms (hold := cfg.hold) (now := reg.now + dt) (inv := i)
+        exact Or.inl ⟨_, List.mem_map.mpr ⟨_, List.mem_map.mpr ⟨i, hi, rfl⟩, rfl⟩,
+          by unfold ikey; rw [ht.1, ht.2.2.1]⟩
+      · have hm := atimeout_mono (hold := cfg.hold) (now := reg.now + dt) (a := a)
+        exact Or.inr ⟨_, List.mem_map.mpr ⟨_, List.mem_map.mpr ⟨a, ha, rfl⟩, rfl⟩,
+          by unfold akey; rw [hm.1, hm.2.2.1]⟩
+
+theorem run_keysOk {R} {cfg : Cfg} (hR : cfg.rejectDelta = R) (evs : List Event) :
+    ∀ (reg : Reg), RegGood H R reg → KeysOk reg → KeysOk (run H P cfg reg evs) := by
+  induction evs with
+  | nil => intro reg _ hk; exact hk
+  | cons e es ih =>
+    intro reg hg hk
+    simp only [run]
+    exact ih _ (step_good hg hR) (step_keysOk hg hk)
+
+theorem reachable_keysOk (H : Nat → Nat) (P : List (Nat × Nat) → Nat → Nat → Nat) (cfg : Cfg)
+    (evs : List Event) : KeysOk (run H P cfg Reg.empty evs) := by
+  refine run_keysOk rfl evs _ (regGood_empty H cfg.rejectDelta) ⟨?_, ?_⟩
+  · intro x hx; simp [Reg.keys, Reg.empty] at hx
+  · intro x hx; simp [Reg.keys, Reg.empty] at hx
+
+/-! ### the invoice-ref lookup of a (replayed) call -/
+
+theorem kHash_of_mem {reg : Reg} (hk : KeysOk reg) {x : Nat × Nat} (hx : x ∈ reg.keys) :
+    kHash reg.keys x.1 = some x := by
+  unfold kHash
+  cases hf : reg.keys.find? (fun k => k.1 == x.1) with
+  | none =>
+    rw [List.find?_eq_none] at hf
+    have := hf x hx
+    simp at this
+  | some y =>
+    have hy := List.mem_of_find?_eq_some hf
+    have he : y.1 = x.1 := by simpa using List.find?_some hf
+    rw [hk.hashes y hy x hx he]
+
+theorem kAddr_of_mem {reg : Reg} (hk : KeysOk reg) {x : Nat × Nat} (hx : x ∈ reg.keys) (hne : x.2 ≠ 0) :
+    kAddr reg.keys x.2 = some x := by
+  unfold kAddr
+  rw [if_neg hne]
+  cases hf : reg.keys.find? (fun k => k.2 == x.2) with
+  | none =>
+    rw [List.find?_eq_none] at hf
+    have := hf x hx
+    simp at this
+  | some y =>
+    have hy := List.mem_of_find?_eq_some hf
+    have he : y.2 = x.2 := by simpa using List.find?_some hf
+    rw [hk.addrs y hy x hx he (by rw [he]; exact hne)]
+
+/-- **lookup of a call that carries the invoice's own address (or none)**: on both stores the
+    invoice with the hash of the call is found. -/
+theorem lookup_same_route {cfg : Cfg} {reg : Reg} (hk : KeysOk reg) {inv : Invoice} (hm : inv ∈ reg.invs)
+    (ref : Option (Nat × Nat)) (hroute : ∀ t a, ref = some (t, a) → a = inv.payAddr) :
+    lookup cfg reg.keys inv.hash ref false = some inv.hash := by
+  have hx : ikey inv ∈ reg.keys := mem_keys.mpr (Or.inl ⟨inv, hm, rfl⟩)
+  have h1 : kHash reg.keys inv.hash = some (ikey inv) := kHash_of_mem hk hx
+  unfold lookup
+  cases ref with
+  | none => simp [h1, ikey]
+  | some ta =>
+    obtain ⟨t, a⟩ := ta
+    have ha := hroute t a rfl
+    subst ha
+    simp only [Bool.false_eq_true, if_false]
+    by_cases cs : cfg.sql = true
+    · rw [if_pos cs, h1]
+      simp [ikey]
+    · rw [if_neg cs, h1]
+      by_cases c0 : inv.payAddr = 0
+      · have : kAddr reg.keys inv.payAddr = none := by unfold kAddr; simp [c0]
+        rw [this]; simp [ikey]
+      · have : kAddr reg.keys inv.payAddr = some (ikey inv) := kAddr_of_mem hk hx c0
+        rw [this]; simp [ikey]
+
+/-- **lookup of a call that carries a foreign address** (non-blank, not the invoice's, no
+    invoice's): the kv store falls back to the hash index and finds the invoice — `updateMpp`'s
+    address comparison is then the only guard —, the SQL store reports an equivocating ref
+    (→ ResultInvoiceNotFound). This is the documented difference between the two stores. -/
+theorem lookup_foreign_addr {cfg : Cfg} {reg : Reg} (hk : KeysOk reg) {inv : Invoice} (hm : inv ∈ reg.invs)
+    (t a : Nat) (ha0 : a ≠ 0) (hne : a ≠ inv.payAddr) (hno : ∀ k ∈ reg.keys, k.2 ≠ a) :
+    lookup cfg reg.keys inv.hash (some (t, a)) false =
+      (if cfg.sql then none else some inv.hash) := by
+  have hx : ikey inv ∈ reg.keys := mem_keys.mpr (Or.inl ⟨inv, hm, rfl⟩)
+  have h1 : kHash reg.keys inv.hash = some (ikey inv) := kHash_of_mem hk hx
+  have h2 : kAddr reg.keys a = none := by
+    unfold kAddr
+    rw [if_neg ha0, List.find?_eq_none]
+    intro k hkm
+    have := hno k hkm
+    simpa using this
+  unfold lookup
+  simp only [Bool.false_eq_true, if_false]
+  by_cases cs : cfg.sql = true
+  · rw [if_pos cs, h1, if_pos cs]
+    simp [ikey, ha0, Ne.symm hne]
+  · rw [if_neg cs, h1, h2, if_neg cs]
+    simp [ikey]
+
+theorem findHash_of_mem {invs : List Invoice} (hn : (invs.map (·.hash)).Nodup) {inv : Invoice}
+    (hm : inv ∈ invs) : findHash invs inv.hash = some inv := by
+  unfold findHash
+  cases hf : invs.find? (fun i => i.hash == inv.hash) with
+  | none =>
+    rw [List.find?_eq_none] at hf
+    have := hf inv hm
+    simp at this
+  | some y =>
+    have hy := List.mem_of_find?_eq_some hf
+    have he : y.hash = inv.hash := by simpa using List.find?_some hf
+    rw [hash_inj hn hy hm he]
+
+theorem setInv_same {invs : List Invoice} (hn : (invs.map (·.hash)).Nodup) {inv : Invoice}
+    (hm : inv ∈ invs) : setInv invs inv = invs := by
+  unfold setInv
+  have : ∀ i ∈ invs, (fun i : Invoice => if i.hash = inv.hash then inv else i) i = id i := by
+    intro i hi
+    by_cases c : i.hash = inv.hash
+    · simp [c, hash_inj hn hi hm c]
+    · simp [c]
+  rw [List.map_congr_left this, List.map_id]
+
+/-- **replay_same_verdict at registry level.**  Let `inv` be an invoice of the registry that
+    records circuit key `ctx.key`, let the spontaneous-payment pre-processing pass without adding
+    an invoice, and let the invoice-ref lookup of the call find `inv` (see `lookup_same_route` /
+    `lookup_foreign_addr` for when it does, per store).  Then NotifyExitHopHtlc leaves all
+    invoices unchanged and answers from the recorded htlc state only: accepted → accept,
+    canceled → fail ReplayToCanceled at the recorded accept height, settled → settle
+    ReplayToSettled with the invoice's preimage (which hashes to the payment hash). -/
+theorem notify_replay {R} {cfg : Cfg} {reg : Reg} {ctx : Ctx} {inv : Invoice} {g : Htlc}
+    (hg : RegGood H R reg) (hpre : preprocess H cfg reg ctx = .ok reg)
+    (hl : lookup cfg reg.keys ctx.hash (refAddr ctx) (ctx.amp && ctx.pathID.isNone) = some inv.hash)
+    (hm : inv ∈ reg.invs) (hf : findHtlc inv ctx.key = some g) (hh : ctx.hash = inv.hash) :
+    (notify H P cfg reg ctx).1.invs = reg.invs ∧ (notify H P cfg reg ctx).1.amps = reg.amps ∧
+    (g.state = .accepted → (notify H P cfg reg ctx).2.reply = .res (.accept .replayToAccepted)) ∧
+    (g.state = .canceled →
+      (notify H P cfg reg ctx).2.reply = .res (.fail .replayToCanceled g.acceptHeight)) ∧
+    (g.state = .settled → ∃ p, inv.preimage = some p ∧ H p = inv.hash ∧
+      (notify H P cfg reg ctx).2.reply = .res (.settle .replayToSettled p ctx.height)) := by
+  obtain ⟨e1, e2, e3, e4⟩ := replay_verdict (hg.good inv hm) hf hh
+  unfold notify
+  rw [hpre]
+  simp only
+  rw [hl]
+  simp only
+  rw [findHash_of_mem hg.nodup hm]
+  simp only
+  cases hn : inotify H ctx inv with
+  | mk inv' r0 =>
+    rw [hn] at e1 e2 e3 e4
+    simp only at e1 e2 e3 e4
+    subst e1
+    simp only
+    refine ⟨setInv_same hg.nodup hm, trivial, ?_, ?_, ?_⟩
+    · intro hs; rw [e2 hs]; rfl
+    · intro hs; rw [e3 hs]; simp [fixHeight, hf]
+    · intro hs
+      obtain ⟨p, hp, hH, hr⟩ := e4 hs
+      exact ⟨p, hp, hH, by rw [hr]; rfl⟩
+
+/-- the pre-processing is the identity when the spontaneous-payment features do not apply. -/
+theorem preprocess_off {cfg : Cfg} {reg : Reg} {ctx : Ctx}
+    (h1 : cfg.acceptAMP = false ∨ ctx.amp = false)
+    (h2 : cfg.acceptKeysend = false ∨ ctx.amp = true ∨ ctx.ks = none) :
+    preprocess H cfg reg ctx = .ok reg := by
+  unfold preprocess
+  have c1 : (cfg.acceptAMP && ctx.amp) = false := by
+    rcases h1 with h | h <;> simp [h]
+  rw [c1]
+  simp only [Bool.false_eq_true, if_false]
+  by_cases c2 : (cfg.acceptKeysend && !ctx.amp) = true
+  · rw [if_pos c2]
+    rcases h2 with h | h | h
+    · simp [h] at c2
+    · simp [h] at c2
+    · unfold processKeySend; simp [h]
+  · rw [if_neg c2]
+
 end LndModel.C15
